@@ -277,7 +277,9 @@ class WKCResource(Resource):
                 filters.append(
                     lambda link: any(
                         matchexp(part)
-                        for part in (" ".join(getattr(link, k, ()))).split(" ")
+                        for value in getattr(link, k, ())
+                        if value is not None
+                        for part in value.split(" ")
                     )
                 )
             elif k in ("href",):  # x.href is single valued
